@@ -563,12 +563,60 @@ def strat_vcf(draw, tier="quick"):
     return {"records": recs}
 
 
+def _lib_block_step(s, e, vs, ve, alt_len):
+    """the per-block arithmetic of the library's single-variant lift, restated here ONLY to delimit known finding F14 (it is not an
+    oracle): returns the lifted block or None when the variant deletes it"""
+    d = alt_len - (ve - vs)
+    if d >= 0:
+        return (s if s < ve else s + d, e if e < ve else e + d)
+    if vs + alt_len <= s <= e <= ve:
+        return None
+    left = ve - s if vs + alt_len <= s < ve else 0
+    return (s if s < ve + d else s + d + left, e if e <= ve + d else e + max(d, d - e + ve))
+
+
+def _walk(blocks, vs_sorted, stale):
+    cur = [tuple(b) for b in blocks]
+    cum = 0
+    for v in vs_sorted:
+        off = 0 if stale else cum
+        nxt = []
+        for s_, e_ in cur:
+            r = _lib_block_step(s_, e_, v["start"] + off, v["end"] + off, len(v["sequence"]))
+            if r is not None:
+                nxt.append(r)
+        cur = nxt
+        cum += len(v["sequence"]) - (v["end"] - v["start"])
+    return cur
+
+
+def _block_lists(o):
+    """every list of [start, end] pairs found in a spec (location blocks, exons, CDS blocks of every member)"""
+    out = []
+    if isinstance(o, dict):
+        for k_, v_ in o.items():
+            if k_ in ("blocks", "exons", "cds") and isinstance(v_, list) and v_ and all(isinstance(b, (list, tuple)) and len(b) == 2 for b in v_):
+                out.append(v_)
+            else:
+                out.extend(_block_lists(v_))
+    elif isinstance(o, list):
+        for v_ in o:
+            out.extend(_block_lists(v_))
+    return out
+
+
 def pred_f14(spec, clause, detail):
-    """the haplotype holds a length-changing variant that is not its 3'-most variant (later variants are then applied at stale reference coordinates)"""
+    """F14 is met when applying a later variant of the haplotype at its REFERENCE coordinates (what the library does) gives other
+    blocks than applying it at the coordinates shifted by the earlier length changes (what is right), for some block list of the case.
+    Haplotypes whose later variants land the same either way (e.g. each indel well inside its own exon) are answered correctly by the
+    library and are NOT excused."""
     if spec.get("as_collection") is False:
         return False
     vs = sorted(spec["variants"], key=lambda v: v["start"])
-    return any(len(v["sequence"]) != v["end"] - v["start"] for v in vs[:-1])
+    if not any(len(v["sequence"]) != v["end"] - v["start"] for v in vs[:-1]):
+        return False
+    lists = _block_lists({k_: v_ for k_, v_ in spec.items() if k_ != "variants"})
+    return any(_walk(bl, vs, True) != _walk(bl, vs, False) for bl in lists)
 
 
 PROP = Prop(
